@@ -220,6 +220,30 @@ pub mod verif {
     true
   }
 
+  /// Runs the real per-function driver (`optimize_function_for_rounds`) with the given switches
+  /// (local value numbering, common subexpression elimination, loop optimization, scalar
+  /// replacement; inlining is not a per-function pass).
+  pub fn run_function_rounds(
+    f: &mut mir::Function,
+    counter: &TempPStrCounter,
+    lvn: bool,
+    cse: bool,
+    loop_opt: bool,
+    sroa: bool,
+  ) {
+    super::optimize_function_for_rounds(
+      f,
+      counter,
+      &super::OptimizationConfiguration {
+        does_perform_local_value_numbering: lvn,
+        does_perform_common_sub_expression_elimination: cse,
+        does_perform_loop_optimization: loop_opt,
+        does_perform_inlining: false,
+        does_perform_scalar_replacement: sroa,
+      },
+    )
+  }
+
   pub fn run_inlining(functions: Vec<mir::Function>, heap: &mut Heap) -> Vec<mir::Function> {
     super::inlining::optimize_functions(functions, heap)
   }
